@@ -7,7 +7,7 @@ from ..absint import TOP, Frame
 from ..effects import RANDOM_STATE_DECORATOR
 from ..idioms import single_def, stmt_of
 from ..kinds import LenKind, RankKind
-from ..model import AnalysisError, call_name, const_value, is_self_attr, kwarg, short, walk_no_nested
+from ..model import AnalysisError, PrivateAnchorMissing, call_name, const_value, is_self_attr, kwarg, short, walk_no_nested
 from .c15 import get_rng
 from .c19 import l4
 
@@ -83,13 +83,13 @@ def run(ctx, rep):
                       ('D4.determ', 'get_likelihood reaches no random source and reads no uninitialised buffer'),
                       ('D5.schema', 'sample(): one row per iteration of range(num_rows), columns = self.columns, marginal quantiles receive clipped probabilities, row elements receive rank-0 values')):
         rep.rule(rid, text)
-    d1(ctx, rep)
-    d2(ctx, rep)
-    d2b(ctx, rep)
-    d3(ctx, rep)
-    d4(ctx, rep)
-    d5(ctx, rep)
-    d6(ctx, rep)
+    rep.guarded('D1.d1', d1, ctx, rep)
+    rep.guarded('D2.d2', d2, ctx, rep)
+    rep.guarded('D2.d2b', d2b, ctx, rep)
+    rep.guarded('D3.d3', d3, ctx, rep)
+    rep.guarded('D4.d4', d4, ctx, rep)
+    rep.guarded('D5.d5', d5, ctx, rep)
+    rep.guarded('D6.d6', d6, ctx, rep)
 
 
 def d6(ctx, rep):
@@ -106,7 +106,7 @@ def d6(ctx, rep):
     ie = edge.methods.get('_identify_eds_ing')
     gc = edge.methods.get('get_child_edge')
     if ie is None or gc is None:
-        raise AnalysisError('anchor vanished: Edge._identify_eds_ing / Edge.get_child_edge')
+        raise PrivateAnchorMissing('Edge._identify_eds_ing') if ie is None else AnalysisError('anchor vanished: Edge.get_child_edge')
     # 1. is the pair named by ownership (left from the first edge) or by sorting?
     p1, p2 = ie.params[0], ie.params[1]
     rets = [n for n in walk_no_nested(ie.node) if isinstance(n, ast.Return) and isinstance(n.value, ast.Tuple) and len(n.value.elts) == 3]
@@ -547,7 +547,7 @@ def d4(ctx, rep):
             rep.bad('D4.determ', clo[q], s.call, f'{s.what} reachable from get_likelihood: the likelihood is not a function of (model, u)')
     else:
         rep.ok('D4.determ', roots[0], roots[0].node.name, 'no entropy source in the likelihood closure', construct='likelihood closure')
-    l4(ctx, rep, only_functions={r.qualname for r in roots}, rule='D4.determ')
+    rep.guarded('L4.l4', l4, ctx, rep, only_functions={r.qualname for r in roots}, rule='D4.determ')
 
 
 def d5(ctx, rep):
@@ -574,7 +574,7 @@ def d5(ctx, rep):
     sr = prog.method(VINE, '_sample_row')
     # values passed to the marginal quantile functions: clipped probabilities / uniform draws
     ppf_calls = [c for c in walk_no_nested(sr.node) if isinstance(c, ast.Call) and isinstance(c.func, ast.Subscript) and is_self_attr(c.func.value, sr.self_name, 'ppfs')]
-    rep.floor('D5.schema', 'marginal quantile calls in _sample_row', len(ppf_calls), 2)
+    rep.floor('D5.schema', 'marginal quantile calls in _sample_row', len(ppf_calls), 1)
     cur_ok = all(isinstance(c.func.slice, ast.Name) and c.func.slice.id == 'current' for c in ppf_calls)
     rep.check('D5.schema', sr, ppf_calls[0] if ppf_calls else sr.node.name, cur_ok, 'the quantile function of the node being sampled is used',
               'a value is mapped through the quantile function of another variable', construct='ppf index')
